@@ -1,1 +1,170 @@
-//! harnesses for c09 (filled in below)
+//! C09 — duplicate-detection kernels: near points fall into adjacent grid cells (both
+//! grids), and the tolerance / equality / ordering relations the dedup paths rely on are coherent.
+
+use crate::util::*;
+use core::cmp::Ordering;
+use delaunay::core::vertex::Vertex;
+use delaunay::geometry::point::Point;
+use delaunay::geometry::traits::coordinate::Coordinate;
+use delaunay::verif_hooks::dedup as dhooks;
+use delaunay::verif_hooks::dt as hooks;
+use delaunay::verif_hooks::grid as ghooks;
+
+fn pow2(e: i32) -> f64 {
+    f64::from_bits(((1023 + e) as u64) << 52)
+}
+
+/// If the linear scan would call `q` a duplicate of `p` (strict `<` on squared distance, as
+/// in `duplicate_coordinates_error`), then the hash-grid lookup around `p` must visit `q`'s
+/// cell: both keyed ⇒ cell coordinates differ by at most one.
+fn check_grid_neighbourhood(s: f64, p: f64, q: f64) -> bool {
+    let diff = p - q;
+    let scan_says_duplicate = diff * diff < s * s;
+    let kp = ghooks::key_for_coords::<f64, 1>(s, &[p]);
+    let kq = ghooks::key_for_coords::<f64, 1>(s, &[q]);
+    if let (Some(kp), Some(kq)) = (kp, kq) {
+        if scan_says_duplicate {
+            assert!((kp[0] - kq[0]).abs() <= 1.0, "a point within the tolerance lies in the 3^D block of grid cells that is searched");
+        }
+        true
+    } else {
+        false
+    }
+}
+
+harness! {
+    // bound: HashGridIndex::key_for_coords, cell size = the default duplicate tolerance 1e-10, p = i*2^-36 (|i| <= 4096), q = p + j*2^-36 (|j| <= 8)
+    #[kani::unwind(4)]
+    fn c09_grid_neighbourhood_default_tol_lattice() {
+        let s = hooks::default_duplicate_tolerance::<f64>();
+        assert!(s == 1e-10);
+        let i: i16 = kani::any();
+        let j: i8 = kani::any();
+        kani::assume(i >= -4096 && i <= 4096 && j >= -8 && j <= 8);
+        let unit = pow2(-36);
+        let p = f64::from(i) * unit;
+        let q = f64::from(i32::from(i) + i32::from(j)) * unit;
+        let keyed = check_grid_neighbourhood(s, p, q);
+        assert!(keyed, "finite coordinates near the origin are keyed");
+        kani::cover!(j == 6 && (p - q) * (p - q) < s * s, "a pair at the edge of the tolerance reached");
+        kani::cover!(j == 7 && !((p - q) * (p - q) < s * s), "a pair just outside the tolerance reached");
+        kani::cover!(i < 0 && i32::from(i) + i32::from(j) > 0, "a pair straddling zero reached");
+    }
+}
+
+harness! {
+    // bound: key_for_coords, cell size 2^-m (m in 20..=40), p = i*2^-(m+3), q = p + j*2^-(m+3), |i| <= 4096, |j| <= 9
+    #[kani::unwind(4)]
+    fn c09_grid_neighbourhood_pow2_cells() {
+        let m: u8 = kani::any();
+        kani::assume(m >= 20 && m <= 40);
+        let s = pow2(-i32::from(m));
+        let unit = pow2(-i32::from(m) - 3);
+        let i: i16 = kani::any();
+        let j: i8 = kani::any();
+        kani::assume(i >= -4096 && i <= 4096 && j >= -9 && j <= 9);
+        let p = f64::from(i) * unit;
+        let q = f64::from(i32::from(i) + i32::from(j)) * unit;
+        let keyed = check_grid_neighbourhood(s, p, q);
+        assert!(keyed);
+        kani::cover!(j == 7, "a pair at the edge of the tolerance reached");
+        kani::cover!(j == 8, "a pair exactly at the tolerance reached");
+    }
+}
+
+harness! {
+    // bound: key_for_coords with cell size 1e-10 and ALL doubles p, q in [0, 4e-10] (adversarial rounding of p/s near cell boundaries)
+    #[kani::unwind(4)]
+    fn c09_grid_neighbourhood_doubles_window() {
+        let s = 1e-10_f64;
+        let p: f64 = kani::any();
+        let q: f64 = kani::any();
+        kani::assume(p >= 0.0 && p <= 4e-10 && q >= 0.0 && q <= 4e-10);
+        let keyed = check_grid_neighbourhood(s, p, q);
+        assert!(keyed);
+        kani::cover!((p - q) * (p - q) < s * s && p != q, "a near pair reached");
+    }
+}
+
+/// Same soundness condition for the batch path's integer cells (`quantize_coords`).
+fn check_quantized_neighbourhood(eps: f64, p: f64, q: f64) -> bool {
+    let inv = 1.0 / eps;
+    let diff = p - q;
+    let within = diff * diff < eps * eps;
+    let kp = hooks::quantize_coords::<f64, 1>(&[p], inv);
+    let kq = hooks::quantize_coords::<f64, 1>(&[q], inv);
+    if let (Some(kp), Some(kq)) = (kp, kq) {
+        if within {
+            assert!((i128::from(kp[0]) - i128::from(kq[0])).abs() <= 1, "a point within epsilon lies in the 3^D block of quantised cells that is searched");
+        }
+        true
+    } else {
+        false
+    }
+}
+
+harness! {
+    // bound: quantize_coords, eps = 1e-10 and 2^-m (m in 20..=40): p = i*unit, q = p + j*unit with unit = 2^-36 resp. 2^-(m+3), |i| <= 4096, |j| <= 9
+    #[kani::unwind(4)]
+    fn c09_quantized_neighbourhood_lattice() {
+        let use_default: bool = kani::any();
+        let m: u8 = kani::any();
+        kani::assume(m >= 20 && m <= 40);
+        let (eps, unit) = if use_default { (1e-10, pow2(-36)) } else { (pow2(-i32::from(m)), pow2(-i32::from(m) - 3)) };
+        let i: i16 = kani::any();
+        let j: i8 = kani::any();
+        kani::assume(i >= -4096 && i <= 4096 && j >= -9 && j <= 9);
+        let p = f64::from(i) * unit;
+        let q = f64::from(i32::from(i) + i32::from(j)) * unit;
+        let keyed = check_quantized_neighbourhood(eps, p, q);
+        assert!(keyed);
+        kani::cover!(use_default && j == 6, "default tolerance, edge of the tolerance reached");
+        kani::cover!(!use_default && j == 7, "power-of-two cell, edge of the tolerance reached");
+    }
+}
+
+harness! {
+    // bound: coords_within_epsilon D=2 over UNRESTRICTED doubles: symmetric; false when a coordinate difference is NaN; strict (false at exactly epsilon on an axis-aligned pair)
+    #[kani::unwind(5)]
+    fn c09_within_epsilon_laws_2d() {
+        let a: [f64; 2] = [kani::any(), kani::any()];
+        let b: [f64; 2] = [kani::any(), kani::any()];
+        let eps: f64 = kani::any();
+        let ab = dhooks::coords_within_epsilon(&a, &b, eps);
+        let ba = dhooks::coords_within_epsilon(&b, &a, eps);
+        assert!(ab == ba, "within-epsilon is symmetric");
+        if a[0].is_nan() || b[1].is_nan() || eps.is_nan() {
+            assert!(!ab, "NaN is never within epsilon of anything");
+        }
+        if a[1] == b[1] && a[1].is_finite() && a[0].is_finite() && b[0].is_finite() && (a[0] - b[0]).abs() == eps {
+            assert!(!ab, "distance exactly epsilon is not a duplicate (strict <)");
+        }
+        if eps > 0.0 && eps.is_finite() && a[0] == b[0] && a[1] == b[1] && a[0].is_finite() && a[1].is_finite() && eps * eps > 0.0 {
+            assert!(ab, "identical finite coordinates are within any positive epsilon");
+        }
+        kani::cover!(ab, "within reached");
+        kani::cover!(!ab && !a[0].is_nan() && !a[1].is_nan() && !b[0].is_nan() && !b[1].is_nan(), "finite not-within reached");
+    }
+}
+
+harness! {
+    // bound: coords_equal_exact vs Vertex::partial_cmp vs Vertex::eq, D=2, UNRESTRICTED doubles (±0.0, NaN payloads, infinities)
+    #[kani::unwind(5)]
+    fn c09_equality_coherent_2d() {
+        let a: [f64; 2] = [kani::any(), kani::any()];
+        let b: [f64; 2] = [kani::any(), kani::any()];
+        let va = Vertex::<f64, (), 2>::new_with_uuid(Point::new(a), uuid_n(1), None);
+        let vb = Vertex::<f64, (), 2>::new_with_uuid(Point::new(b), uuid_n(2), None);
+        let exact = dhooks::coords_equal_exact(&a, &b);
+        let cmp = va.partial_cmp(&vb);
+        let eq = va == vb;
+        assert!(exact == (cmp == Some(Ordering::Equal)), "exact coordinate equality <=> compares Equal (sorted dedup relies on it)");
+        assert!(exact == eq, "exact coordinate equality <=> Vertex ==");
+        assert!(cmp.is_some(), "vertex order is total (OrderedFloat semantics)");
+        let rev = vb.partial_cmp(&va);
+        assert!(rev == cmp.map(Ordering::reverse), "vertex order is antisymmetric");
+        kani::cover!(exact && a[0].to_bits() != b[0].to_bits(), "equal with different bits (+0/-0 or NaN payloads) reached");
+        kani::cover!(!exact, "unequal reached");
+        kani::cover!(a[0].is_nan() && b[0].is_nan(), "NaN vs NaN reached");
+    }
+}
